@@ -44,13 +44,17 @@ Definition expected_WriteSector : list shape_stmt :=
         SLoc Vn Vnow "n, now := sectorLoc(r.offsets[z][x])" tt;
         SIf "need >= 256" tt [SRet "return ErrTooLarge"] [];
         SIf "n != 0 && now == need" tt []
-          [SFor LCounted Vi "for i := int32(0); i < now; i++" tt [SMark "r.sectors[n+i] = false" tt false];
+          [SLet VoldN "oldN, oldNow := n, now" tt; SLet VoldNow "oldN, oldNow := n, now" tt;
+           SFor LCounted Vi "for i := int32(0); i < now; i++" tt [SMark "r.sectors[n+i] = false" tt false];
            SEff ECallFindSpace "n = r.findSpace(need)" tt; SLet Vnow "now = need" tt;
            SFor LCounted Vi "for i := int32(0); i < need; i++" tt [SMark "r.sectors[n+i] = true" tt true];
            SEff ESetOffset "r.offsets[z][x] = (n << 8) | (need & 0xFF)" tt;
            SEff0 ENow "timestamp := time.Now().Unix()";
            SEff2 ECallSetHead "err := r.setHead(x, z, uint32(r.offsets[z][x]), uint32(timestamp))" tt tt;
-           SErrCheck "return err"; SEff ESetTs "r.Timestamps[z][x] = int32(timestamp)" tt];
+           SErrDo "return err"
+             [SFor LCounted Vi "for i := int32(0); i < oldNow; i++" tt
+                [SMark "r.sectors[oldN+i] = true" tt true]];
+           SEff ESetTs "r.Timestamps[z][x] = int32(timestamp)" tt];
         SEff ESeek "_, err := r.f.Seek(4096*int64(n), 0)" tt; SErrCheck "return err";
         SEff EWriteInt32 "err = binary.Write(r.f, binary.BigEndian, int32(len(data)))" tt;
         SErrCheck "return err"; SEff0 EWriteData "_, err = r.f.Write(data)"; SErrCheck "return err";
